@@ -9,22 +9,37 @@ area = "parse"
 driver = "drv_parse"
 cxx = False
 fixed_lines = 1
-rule = ("scripts = 'p fmt <description of the style> 255 255' then groups of 'p root .', 'p render <style> <decor> "
-        "<forest> <text>' (text = output of the Lean reference writer `Render.render`, produced by the model "
+rule = ("scripts = 'p fmt <description of the style> <sect flags> <opt flags>' then groups of 'p root .', 'p render <style> "
+        "<decor> <forest> <text>' (text = output of the Lean reference writer `Render.render`, produced by the model "
         "executable and re-checked by it on every run), 'p node' (real mpt_parse_node on that text; the spec "
-        "alternative is exactly the normalised forest), closed by 'p end'; stream 1 enumerates EVERY ordered forest "
-        "shape with <= 5 nodes (thorough: 6) x 4 name patterns (distinct / all equal / alternating / digits and dashes) x 4 value patterns x the "
-        "styles that can express it (brace: all; sep, bar: options + one level of sections; enc: all) x 5 decorations (the fifth glues a comment directly to section names / braces); stream 2 = random forests (depth <= 5, fan-out <= 5, names "
-        "up to 300 bytes, values of 1..40 bytes and of 249..257 bytes, thorough: 65534..65537 bytes, values that "
-        "need quoting, embedded quotes/backslashes/line feeds/high bytes); stream 4 = 8 format descriptions that name their escape characters x values containing the other quote "
-        "characters (text written by this module, expectation given with 'p expect'); stream 3 = names that contain the path "
-        "separator '.' (known finding dot-in-name); non-trivial = the real code returned a "
-        "tree with at least one section that has children or one value, counted per distinct script")
+        "alternative is exactly the normalised forest when `Render.forestFits` holds for the flag words), 'p stat', closed "
+        "by 'p end'; stream 1 enumerates EVERY ordered forest shape with <= 5 nodes (thorough: 6) x 5 name patterns "
+        "(distinct / all equal / alternating / digits and dashes / quotes, backslash, punctuation, control and high "
+        "bytes) x 5 value patterns x the 4 styles (brace and {x}: all shapes; sep, bar: options, then sections, empty "
+        "sections included) x 7 decorations (4: comment glued to section names / braces; 5: CR LF line ends, form feed / "
+        "vertical tab blanks, empty sections in section syntax, last line without line feed; 6: decorated end lines of "
+        "empty sections, unterminated last comment); stream 2 = random forests (depth <= 5, fan-out <= 5, names up to "
+        "300 bytes over every admissible byte, values of 1..40 and 249..257 bytes, values that need quoting, embedded "
+        "quotes/backslashes/line feeds/high bytes); stream 2b = values of 65534..65537 bytes, plain and quoted, in every "
+        "tier; stream 3 = names with the path separator '.' (known finding dot-in-name); stream 4 = 8 format descriptions "
+        "that name their escape characters x values containing the other quote characters ('p expect'); stream 5 "
+        "(layouts) = texts WRITTEN BY THIS MODULE from the rules of the file format, expectation by 'p expect': 9 format "
+        "descriptions (other delimiters, assignment and comment characters), single- and double-quoted and plain "
+        "values, CR LF, no final line feed, text behind the last element, empty sections, blanks inside '[ s ]' / "
+        "'| s' / '{ s', name and '{' on different lines, 'a{', first option on the header line, names with inner blanks "
+        "(brace family); stream 6 = 9 pairs of name restriction words x the 4 styles with names that mostly fit them; "
+        "non-trivial = the real code returned a tree with at least one section that has children or one value, counted "
+        "per distinct script")
 assumptions = [
-    "forests are restricted to `Render.admissible` (names of letters/digits/_/-; values without zero byte; "
-    " flat styles: options first, one level of sections)",
-    "name flags 0xff for sections and options; format descriptions: default (brace), '[ ] = #' (sep), '|x| = #' (bar), "
-    "'{x} = #' (enc)",
+    "theorems: forests are restricted to `Render.admissible` (names without white space, '#', '=', '.', '{}[]|'; values "
+    "without zero byte; flat styles: options first, one level of sections) and to names the flag words permit "
+    "(`Render.forestFits`); every element line ends with a line feed (a last ELEMENT line without line feed, blanks "
+    "inside a name or header, several elements on one line, single quotes and other delimiter sets are exercised by "
+    "the layouts stream only)",
+    "theorems: format descriptions default (brace), '[ ] = #' (sep), '|x| = #' (bar), '{x} = #' (enc)",
+    "a section header of the 'x' formats ('|s', '{s') as very last line WITHOUT line feed is refused (MissingData) by the "
+    "real code and the model alike; a quote that opens in the middle of a value is kept (a='p'\"q\" reads p\"q): both "
+    "outside what the writer produces, the layouts stream avoids them",
     "the value of a node is observed through its character vector conversion (terminating zero dropped); buffer-backed "
     "(long) values offer no 's' string conversion",
     "memory allocation never fails in the harness runs",
